@@ -217,6 +217,7 @@ var ruleC1 = &Rule{
 			// the service itself, or a description handed to a generic builder. A literal that only forwards them is not one.
 			var lit *ast.CompositeLit
 			var insertExpr ast.Expr
+			var descPos token.Pos
 			ast.Inspect(fi.Decl.Body, func(n ast.Node) bool {
 				if cl, ok := n.(*ast.CompositeLit); ok {
 					hasAcq, hasProc := false, false
@@ -243,11 +244,37 @@ var ruleC1 = &Rule{
 					}
 					if hasAcq && hasProc && ins != nil {
 						lit, insertExpr = cl, ins
+						descPos = cl.Pos()
+					}
+				}
+				// … or the same three things handed as arguments to a generic builder
+				if call, ok := n.(*ast.CallExpr); ok && lit == nil {
+					hasAcq, hasProc := false, false
+					var ins ast.Expr
+					for _, a := range call.Args {
+						tv, ok := info.Types[a]
+						if !ok || tv.Type == nil {
+							continue
+						}
+						switch {
+						case isAcquireSig(tv.Type):
+							hasAcq = true
+						case isProcessSig(tv.Type):
+							hasProc = true
+						case types.Identical(tv.Type.Underlying(), types.Typ[types.String]):
+							if reInsertCols.MatchString(c.queryText(fi, a)) {
+								ins = a
+							}
+						}
+					}
+					if hasAcq && hasProc && ins != nil {
+						insertExpr = ins
+						descPos = call.Pos()
 					}
 				}
 				return true
 			})
-			if lit == nil {
+			if descPos == token.NoPos {
 				continue
 			}
 			name := fi.Name()
@@ -332,8 +359,44 @@ var ruleC1 = &Rule{
 					}
 				}
 			}
+			if cfn := c.SSAFunc(rel(fi.Pkg.PkgPath), declName(fi.Decl)); cfn != nil && (acqFn == nil || procFn == nil) {
+				for _, b := range cfn.Blocks {
+					for _, ins := range b.Instrs {
+						call, ok := ins.(*ssa.Call)
+						if !ok {
+							continue
+						}
+						for _, a := range call.Common().Args {
+							v := a
+							for {
+								if ct, ok := v.(*ssa.ChangeType); ok {
+									v = ct.X
+									continue
+								}
+								break
+							}
+							var fv *ssa.Function
+							switch f := v.(type) {
+							case *ssa.MakeClosure:
+								fv, _ = f.Fn.(*ssa.Function)
+							case *ssa.Function:
+								fv = f
+							}
+							if fv == nil {
+								continue
+							}
+							if isAcquireSig(a.Type()) {
+								acqFn = fv
+							}
+							if isProcessSig(a.Type()) {
+								procFn = fv
+							}
+						}
+					}
+				}
+			}
 			if m == nil || acqFn == nil || procFn == nil {
-				add("service shape", false, lit.Pos(), "INSERT text, AcquireColumns or ProcessRequest not recognised")
+				add("service shape", false, descPos, "INSERT text, AcquireColumns or ProcessRequest not recognised")
 				continue
 			}
 			var insCols []string
@@ -373,7 +436,7 @@ var ruleC1 = &Rule{
 				scan(acqFn, 0)
 			}
 			if ai == nil {
-				add("acquirer", false, lit.Pos(), "acquirer type not recognised")
+				add("acquirer", false, descPos, "acquirer type not recognised")
 				continue
 			}
 			// (a) sets
@@ -396,12 +459,12 @@ var ruleC1 = &Rule{
 			}
 			sort.Strings(all)
 			for _, col := range all {
-				add(fmt.Sprintf("column %s acquired and inserted", col), acqSet[col] && insSet[col] && len(insCols) == len(insSet), lit.Pos(),
+				add(fmt.Sprintf("column %s acquired and inserted", col), acqSet[col] && insSet[col] && len(insCols) == len(insSet), descPos,
 					fmt.Sprintf("column %q: acquired=%v, named in the INSERT statement=%v — the block sent does not match the statement", col, acqSet[col], insSet[col]))
 				// (c) schema
 				tcols := sch[table]
 				_, inSchema := tcols[col]
-				add(fmt.Sprintf("column %s exists in table %s", col, table), inSchema, lit.Pos(), fmt.Sprintf("table %s of the migration scripts has no column %q", table, col))
+				add(fmt.Sprintf("column %s exists in table %s", col, table), inSchema, descPos, fmt.Sprintf("table %s of the migration scripts has no column %q", table, col))
 			}
 			// (b) positions
 			okPos := len(ai.ser) == len(ai.deser) && len(ai.ser) == len(ai.colOf)
@@ -411,14 +474,14 @@ var ruleC1 = &Rule{
 					break
 				}
 			}
-			add("serialize and deserialize agree position by position", okPos, lit.Pos(), fmt.Sprintf("serialize order %v, deserialize order %v", ai.ser, ai.deser))
+			add("serialize and deserialize agree position by position", okPos, descPos, fmt.Sprintf("serialize order %v, deserialize order %v", ai.ser, ai.deser))
 			if ai.named != nil {
 				st := ai.named.Underlying().(*types.Struct)
 				for i, f := range ai.deser {
 					for j := 0; j < st.NumFields(); j++ {
 						if st.Field(j).Name() == f {
 							want := types.TypeString(st.Field(j).Type(), func(p *types.Package) string { return p.Name() })
-							add(fmt.Sprintf("deserialize[%d] asserts the type of field %s", i, f), want == ai.deserT[i], lit.Pos(), fmt.Sprintf("asserted %s, field is %s", ai.deserT[i], want))
+							add(fmt.Sprintf("deserialize[%d] asserts the type of field %s", i, f), want == ai.deserT[i], descPos, fmt.Sprintf("asserted %s, field is %s", ai.deserT[i], want))
 						}
 					}
 				}
@@ -427,7 +490,7 @@ var ruleC1 = &Rule{
 			for f, n := range ai.sizeOf {
 				col := ai.colOf[f]
 				t := sch[table][col]
-				add(fmt.Sprintf("column %s width %d matches the schema", col, n), t == fmt.Sprintf("FixedString(%d)", n), lit.Pos(), fmt.Sprintf("SetSize(%d) but the schema declares %s", n, t))
+				add(fmt.Sprintf("column %s width %d matches the schema", col, n), t == fmt.Sprintf("FixedString(%d)", n), descPos, fmt.Sprintf("SetSize(%d) but the schema declares %s", n, t))
 			}
 			// (e) request processor: column ← model field, on SSA over the processor and the module functions it calls
 			fedFull := c.columnFeeds(procFn, ai)
@@ -441,9 +504,9 @@ var ruleC1 = &Rule{
 			// the request processor is shared by every channel of the service (round-robin, sync + async): it must keep no
 			// state of its own between calls
 			if w := writesCapturedState(procFn); w != "" {
-				add("request processor keeps no state between calls", false, lit.Pos(), "the ProcessRequest function writes to "+w+", which it captured from the constructor: all insert channels of the service run this one function concurrently under different locks, so two requests overwrite each other's column pointers")
+				add("request processor keeps no state between calls", false, descPos, "the ProcessRequest function writes to "+w+", which it captured from the constructor: all insert channels of the service run this one function concurrently under different locks, so two requests overwrite each other's column pointers")
 			} else {
-				add("request processor keeps no state between calls", true, lit.Pos(), "")
+				add("request processor keeps no state between calls", true, descPos, "")
 			}
 			usedBy := map[string]string{}
 			var afs []string
@@ -466,7 +529,7 @@ var ruleC1 = &Rule{
 					}
 					usedBy[srcs[0]] = ai.colOf[f]
 				}
-				add(fmt.Sprintf("column %s is fed from exactly one request field", ai.colOf[f]), okFeed, lit.Pos(), msg)
+				add(fmt.Sprintf("column %s is fed from exactly one request field", ai.colOf[f]), okFeed, descPos, msg)
 			}
 		}
 		return obls
@@ -1524,6 +1587,25 @@ func (c *Ctx) insertServices() []insertService {
 				}
 				if isProcessSig(ft) && funcVal(st.Val) != nil {
 					svc.procFn = funcVal(st.Val)
+				}
+			}
+		}
+		if svc.acqFn == nil || svc.procFn == nil {
+			// the two functions handed as arguments to a generic builder
+			for _, b := range fn.Blocks {
+				for _, ins := range b.Instrs {
+					call, ok := ins.(*ssa.Call)
+					if !ok {
+						continue
+					}
+					for _, a := range call.Common().Args {
+						if isAcquireSig(a.Type()) && funcVal(a) != nil {
+							svc.acqFn = funcVal(a)
+						}
+						if isProcessSig(a.Type()) && funcVal(a) != nil {
+							svc.procFn = funcVal(a)
+						}
+					}
 				}
 			}
 		}
